@@ -600,3 +600,9 @@ for _p in ('C06', 'C07'):
 # C17: "uniformly spaced indexed frames" in the mode - the frame set-up obligations of C13 decide it (value-level numpy stub)
 SPECS['C17']['obligations'] = SPECS['C17']['obligations'] + _find('C13', 'ob_params') + _find('C13', 'reach_params')
 SPECS['C17']['outside'] = [o for o in SPECS['C17']['outside'] if not o.startswith('signed-integer channel data')]
+
+# a frame whose channel list repeats a name cannot be laid out (columns are keyed by channel name): refused, or one slot per channel
+_dupn = _pair('c11', 'dup_names', (120, 300), 'frame [I, X, X(copy 1)] / [I, X, X (same object)] / control [I, X, Y]; 1..3 rows; chunk 1..3; inline data through LogicalFile._make_multi_frame_data',
+              ['MultiFrameData.__init__', 'LogicalFile._make_multi_frame_data', 'FrameItem.channel_name_mapping', 'LogicalFile.add_frame'], replay=D + 'replay_dup_names', validate=D + 'replay_dup_names')
+for _p in ('C08', 'C12', 'C11'):
+    SPECS[_p]['obligations'] = SPECS[_p]['obligations'] + _dupn
